@@ -18,18 +18,21 @@ impl StreamId {
 
     /// Checks whether a stream is bi-directional or not.
     #[inline(always)]
+    #[cfg_attr(kani, kani::ensures(|r: &bool| *r == crate::verif_kani::spec::stream_is_bidirectional(self.0.into_inner())))]
     pub const fn is_bidirectional(self) -> bool {
         self.0.into_inner() & 0x2 == 0
     }
 
     /// Checks whether a stream is client-initiated or not.
     #[inline(always)]
+    #[cfg_attr(kani, kani::ensures(|r: &bool| *r == crate::verif_kani::spec::stream_is_client_initiated(self.0.into_inner())))]
     pub const fn is_client_initiated(self) -> bool {
         self.0.into_inner() & 0x1 == 0
     }
 
     /// Checks whether a stream is locally initiated or not.
     #[inline(always)]
+    #[cfg_attr(kani, kani::ensures(|r: &bool| *r == (crate::verif_kani::spec::stream_is_client_initiated(self.0.into_inner()) != is_server)))]
     pub const fn is_local(self, is_server: bool) -> bool {
         (self.0.into_inner() & 0x1) == (is_server as u64)
     }
@@ -103,6 +106,10 @@ impl SessionId {
     ///
     /// `stream_id` must be *bidirectional* and *client-initiated*, otherwise
     /// an [`Err`] is returned.
+    #[cfg_attr(kani, kani::ensures(|r: &Result<Self, InvalidSessionId>| match r {
+        Ok(s) => stream_id.into_u64() % 4 == 0 && s.into_u64() == stream_id.into_u64(),
+        Err(_) => stream_id.into_u64() % 4 != 0,
+    }))]
     pub fn try_from_session_stream(stream_id: StreamId) -> Result<Self, InvalidSessionId> {
         if stream_id.is_bidirectional() && stream_id.is_client_initiated() {
             Ok(Self(stream_id))
@@ -164,6 +171,8 @@ impl QStreamId {
 
     /// Creates a quarter stream id from its corresponding [`SessionId`]
     #[inline(always)]
+    #[cfg_attr(kani, kani::requires(session_id.into_u64() <= crate::verif_kani::spec::VARINT_MAX && session_id.into_u64() % 4 == 0))]
+    #[cfg_attr(kani, kani::ensures(|r: &Self| r.into_u64() == session_id.into_u64() / 4 && r.into_u64() <= crate::verif_kani::spec::QSTREAM_MAX))]
     pub const fn from_session_id(session_id: SessionId) -> Self {
         let value = session_id.into_u64() >> 2;
         debug_assert!(value <= Self::MAX.into_u64());
@@ -178,6 +187,8 @@ impl QStreamId {
     ///
     /// This is a *client-initiated* *bidirectional* stream.
     #[inline(always)]
+    #[cfg_attr(kani, kani::requires(self.0.into_inner() <= crate::verif_kani::spec::QSTREAM_MAX))]
+    #[cfg_attr(kani, kani::ensures(|r: &StreamId| r.into_u64() == 4 * self.0.into_inner() && r.into_u64() <= crate::verif_kani::spec::VARINT_MAX))]
     pub const fn into_stream_id(self) -> StreamId {
         // SAFETY: Quarter Stream ID origin from a valid Stream ID
         let varint = unsafe {
@@ -190,6 +201,8 @@ impl QStreamId {
 
     /// Returns its corresponding [`SessionId`].
     #[inline(always)]
+    #[cfg_attr(kani, kani::requires(self.0.into_inner() <= crate::verif_kani::spec::QSTREAM_MAX))]
+    #[cfg_attr(kani, kani::ensures(|r: &SessionId| r.into_u64() == 4 * self.0.into_inner() && r.into_u64() <= crate::verif_kani::spec::VARINT_MAX))]
     pub const fn into_session_id(self) -> SessionId {
         let stream_id = self.into_stream_id();
 
@@ -212,6 +225,10 @@ impl QStreamId {
         self.0
     }
 
+    #[cfg_attr(kani, kani::ensures(|r: &Result<Self, InvalidQStreamId>| match r {
+        Ok(q) => varint.into_inner() <= crate::verif_kani::spec::QSTREAM_MAX && q.into_u64() == varint.into_inner(),
+        Err(_) => varint.into_inner() > crate::verif_kani::spec::QSTREAM_MAX,
+    }))]
     pub(crate) fn try_from_varint(varint: VarInt) -> Result<Self, InvalidQStreamId> {
         if varint <= Self::MAX.into_varint() {
             Ok(Self(varint))
@@ -222,6 +239,13 @@ impl QStreamId {
 
     #[cfg(test)]
     pub(crate) fn maybe_invalid(varint: VarInt) -> QStreamId {
+        Self(varint)
+    }
+
+    /// Verification-only constructor (no contract attached, so every checked constructor can be
+    /// used as a verified stub).
+    #[cfg(kani)]
+    pub(crate) fn verif_from_varint_unchecked(varint: VarInt) -> QStreamId {
         Self(varint)
     }
 }
